@@ -1489,8 +1489,15 @@ class Array(ComplexModelBase):
 
         logger.debug('Pass serializer attrs %r', serializer_attrs)
 
-        serializer, = cls._type_info.values()
-        return cls(serializer.customize(**serializer_attrs)).customize(**kwargs)
+        # customize() gives the new class its own copy of the type info, so
+        # the member can be replaced there. (Rebuilding the array from scratch
+        # would lose its member name and type name.)
+        retval = super(Array, cls).customize(**kwargs)
+        (member_name, serializer), = retval._type_info.items()
+        retval._type_info[member_name] = \
+                                       serializer.customize(**serializer_attrs)
+
+        return retval
 
     @classmethod
     def _set_serializer(cls, serializer, member_name=None):
